@@ -7,6 +7,7 @@
 // parser of the ISO grammar for the directive and parsed back with strtold; glibc's output is
 // only counted for information, never demanded.
 #include "pfcall.hpp"
+#include <algorithm>
 #include <cfloat>
 #include <climits>
 #include <cmath>
@@ -369,7 +370,54 @@ static void check_call(const Spec &d, double x, Verdict &vd, bool safety_only = 
         if (x == 0 && (atoi(ex.c_str()) != 0 || esign != '+'))
             bad("exponent", "zero must have exponent +00");
     };
-    int X = 0; // decimal exponent of the printed value
+    // The decimal exponent X that ISO's rules refer to is a property of the ARGUMENT: the exponent of
+    // the value correctly rounded to the number of significant digits the directive keeps (P+1 for e,
+    // P for g). glibc's "%.*e" of the same value supplies it; where the argument is within 8 ulp (the
+    // slack of the accuracy clause; this includes exact ties) of a rounding boundary that changes X,
+    // the exponents on both sides are accepted.
+    int nsig = cv == 'e' ? P + 1 : (has_prec ? (P == 0 ? 1 : P) : 6);
+    std::vector<int> XA; // accepted exponents, ascending
+    if (cv != 'f')
+    {
+        auto ref_exp = [&](double v) {
+            if (v == 0)
+                return 0;
+            char b[64];
+            snprintf(b, sizeof b, "%.*e", nsig - 1, fabs(v));
+            const char *epos = strchr(b, 'e');
+            return epos ? atoi(epos + 1) : 0;
+        };
+        auto addX = [&](int v) {
+            for (int k : XA)
+                if (k == v)
+                    return;
+            XA.push_back(v);
+        };
+        addX(ref_exp(x));
+        if (x != 0)
+        {
+            // the same 8 ulp of slack that the accuracy clause grants: a printed value that is within
+            // "a few ulps" of an argument lying next to a power of ten may carry either exponent
+            double lo = fabs(x), hi = fabs(x);
+            for (int k = 0; k < 8; k++)
+            {
+                lo = nextafter(lo, 0.0);
+                hi = nextafter(hi, INFINITY);
+            }
+            if (lo > 0)
+                addX(ref_exp(lo));
+            if (std::isfinite(hi))
+                addX(ref_exp(hi));
+        }
+        std::sort(XA.begin(), XA.end());
+    }
+    auto xa_str = [&]() {
+        string r;
+        for (int k : XA)
+            r += (r.empty() ? "" : " or ") + std::to_string(k);
+        return r;
+    };
+    auto in_XA = [&](int v) { return std::find(XA.begin(), XA.end(), v) != XA.end(); };
     long double unit = 0;
     if (cv == 'f')
     {
@@ -388,39 +436,48 @@ static void check_call(const Spec &d, double x, Verdict &vd, bool safety_only = 
             bad("digits", mc::fmt("%zu fraction digits, precision is %d", fr.size(), P));
         if (dot != (P > 0 || alt))
             bad("point", dot ? "decimal point without fraction digits and without #" : "decimal point missing");
-        X = (esign == '-' ? -1 : 1) * atoi(ex.c_str());
-        unit = powl(10.0L, X - P);
+        int Xp = (esign == '-' ? -1 : 1) * atoi(ex.c_str());
+        if (why.empty() && !in_XA(Xp))
+            bad("exponent_value", mc::fmt("exponent %d printed, the argument rounded to %d significant digits has exponent %s", Xp, nsig,
+                                          xa_str().c_str()));
+        unit = powl(10.0L, XA.front() - P); // the last digit position ISO prescribes
     }
     else
-    { // g: style e if X < -4 or X >= P, else style f with P-1-X fraction digits; trailing zeros removed unless #
-        int Pg = has_prec ? (P == 0 ? 1 : P) : 6;
+    { // g: with X the exponent of the ARGUMENT rounded to Pg digits: style e (Pg-1 fraction digits) iff X < -4 or
+      // X >= Pg, else style f with Pg-1-X fraction digits; trailing zeros removed unless #
+        int Pg = nsig;
         if (echar)
         {
             exp_ok();
-            X = (esign == '-' ? -1 : 1) * atoi(ex.c_str());
-            if (!(X < -4 || X >= Pg))
-                bad("style", mc::fmt("exponent style used although the exponent %d is in [-4, %d)", X, Pg));
+            int Xp = (esign == '-' ? -1 : 1) * atoi(ex.c_str());
+            bool style_ok = false;
+            for (int X : XA)
+                style_ok |= (X < -4 || X >= Pg);
+            if (!style_ok)
+                bad("style", mc::fmt("exponent style used although the argument's exponent %s is in [-4, %d)", xa_str().c_str(), Pg));
+            else if (why.empty() && !(in_XA(Xp) && (Xp < -4 || Xp >= Pg)))
+                bad("exponent_value", mc::fmt("exponent %d printed, the argument rounded to %d significant digits has exponent %s", Xp, Pg,
+                                              xa_str().c_str()));
             if (alt ? (int)fr.size() != Pg - 1 : (int)fr.size() > Pg - 1)
                 bad("digits", mc::fmt("%zu fraction digits for %d significant digits", fr.size(), Pg));
         }
         else
         {
-            if (ip != "0")
-                X = (int)ip.size() - 1;
-            else
-            {
-                size_t j = 0;
-                while (j < fr.size() && fr[j] == '0')
-                    j++;
-                X = j < fr.size() ? -(int)(j + 1) : 0;
-            }
-            if (!(X >= -4 && X < Pg) && !(x == 0))
-                bad("style", mc::fmt("fixed style used although the exponent %d is outside [-4, %d)", X, Pg));
-            int want_fr = Pg - 1 - X;
-            if (want_fr < 0)
-                want_fr = 0;
-            if (alt ? (int)fr.size() != want_fr : (int)fr.size() > want_fr)
-                bad("digits", mc::fmt("%zu fraction digits, %d significant digits at exponent %d allow %d", fr.size(), Pg, X, want_fr));
+            bool style_ok = false, digits_ok = false;
+            int allow = 0;
+            for (int X : XA)
+                if (X >= -4 && X < Pg)
+                {
+                    style_ok = true;
+                    int want_fr = Pg - 1 - X;
+                    allow = want_fr;
+                    digits_ok |= alt ? (int)fr.size() == want_fr : (int)fr.size() <= want_fr;
+                }
+            if (!style_ok)
+                bad("style", mc::fmt("fixed style used although the argument's exponent %s is outside [-4, %d)", xa_str().c_str(), Pg));
+            else if (!digits_ok)
+                bad("digits", mc::fmt("%zu fraction digits; %d significant digits at the argument's exponent %s %s %d", fr.size(), Pg,
+                                      xa_str().c_str(), alt ? "need exactly" : "allow at most", allow));
         }
         if (alt)
         {
@@ -434,7 +491,7 @@ static void check_call(const Spec &d, double x, Verdict &vd, bool safety_only = 
             if (dot && fr.empty())
                 bad("point", "decimal point without fraction digits and without #");
         }
-        unit = powl(10.0L, X - Pg + 1);
+        unit = powl(10.0L, XA.front() - Pg + 1); // the last digit position ISO prescribes
     }
     if (!why.empty())
     {
@@ -443,7 +500,8 @@ static void check_call(const Spec &d, double x, Verdict &vd, bool safety_only = 
         return;
     }
 
-    // ---- accuracy: parsed back, within half a unit of the last printed digit + 8 ulp of the argument
+    // ---- accuracy: parsed back, within half a unit of the last digit position ISO prescribes for the ARGUMENT
+    // (10^-P for f, 10^(X-P) for e, 10^(X-P+1) for g, X as above) + 8 ulp of the argument
     long double y = strtold(((sg == '-' ? "-" : "") + tok).c_str(), nullptr);
     long double ax = fabsl((long double)x);
     long double ulp = (long double)(nextafter(fabs(x), INFINITY)) - ax;
@@ -458,7 +516,7 @@ static void check_call(const Spec &d, double x, Verdict &vd, bool safety_only = 
     }
     if (!(err <= tol))
         mc::violation("C13.print_f.accuracy." + tail,
-                      "%s: emitted %s, which is off by %.4Lg units of the last printed digit / %.4Lg ulp of the argument (allowed: 0.5 unit + 8 ulp)",
+                      "%s: emitted %s, which is off by %.4Lg units of the last digit position the directive prescribes / %.4Lg ulp of the argument (allowed: 0.5 unit + 8 ulp)",
                       ctx.c_str(), vis(t).c_str(), err / unit, err / ulp);
     vd.rounded = (y != (long double)x);
 }
